@@ -187,11 +187,15 @@ CLAIMED = {
         text="Lean theorems: every strict byte prefix of a valid encoding makes pyDecode return an error (C16_truncation, from "
              "dec_prefix_none by induction over the type tree), a returned value accounts for bits that were present "
              "(C16_no_fabrication from dec_consumes), and pyDecode errs whenever the canonical decoder fails (short payloads). "
-             "Tie: every truncation point and corrupted length prefixes up to 2^32-1 against the model, with read_word/_decode call "
-             "counting against an input-length bound.",
-        note="Partial: the work bound is checked by call counting in the harness, not yet by a Lean theorem; zero-width element types "
-             "under a dynamic array are a recorded finding (known_findings.json).",
-        technique="Lean 4 proof (prefix lemma by structural induction) + correspondence check with call counting",
+             "Work: `reads` counts the decoder's read_word calls (same recursion, failing read included) and C16_work_bounded proves "
+             "reads <= weight(schema) * (1 + 8*#bytes) for every type without a zero-width element type under a dynamic array (PosWidth); "
+             "C16_zero_width_counterexample shows the guard is needed. "
+             "Tie: every truncation point and corrupted length prefixes up to 2^32-1 against the model; the implementation's read_word "
+             "call count must equal the model's `reads` exactly on every decode job.",
+        note="zero-width element types under a dynamic array are a recorded finding (known_findings.json) and exactly the complement of "
+             "the theorem's guard; Python-level work other than read_word calls (list appends, dict building) is proportional to it and "
+             "not separately modelled.",
+        technique="Lean 4 proof (prefix lemma + work bound by structural induction) + correspondence check with exact call counting",
         ref="DESIGN.md section 8, C16"),
 }
 ALL = [f"C{n:02d}" for n in range(1, 21)]
